@@ -16,6 +16,7 @@ import (
 	"go/types"
 	"os"
 	"reflect"
+	"regexp"
 	"sort"
 	"strings"
 )
@@ -398,6 +399,10 @@ func valueWhitelist(fd *ast.FuncDecl) (good []string, unaryArrowRejected bool, c
 	if sw == nil {
 		fail("processValue: no type switch")
 	}
+	// a case rejects by setting its verdict variable to false or by returning false (whatever the variable is called)
+	rejects := func(body string) bool {
+		return regexp.MustCompile(`\b\w+ = false\b|\breturn false\b`).MatchString(body)
+	}
 	for _, c := range sw.Body.List {
 		cc := c.(*ast.CaseClause)
 		body := ""
@@ -406,22 +411,22 @@ func valueWhitelist(fd *ast.FuncDecl) (good []string, unaryArrowRejected bool, c
 		}
 		switch {
 		case cc.List == nil:
-			defaultRejects = strings.Contains(body, "ok = false")
+			defaultRejects = rejects(body)
 		case len(cc.List) == 1 && text(cc.List[0]) == "*ast.UnaryExpr":
-			unaryArrowRejected = strings.Contains(body, "expr.Op == token.ARROW") && strings.Contains(body, "ok = false")
+			unaryArrowRejected = regexp.MustCompile(`\.Op == token\.ARROW`).MatchString(body) && rejects(body)
 		case len(cc.List) == 1 && text(cc.List[0]) == "*ast.CallExpr":
 			switch {
-			case !strings.Contains(body, "ok = false"):
+			case !rejects(body):
 				callRule = "none"
-			case strings.Contains(body, "if !info.Types[expr.Fun].IsType()"):
+			case regexp.MustCompile(`!\w+\.Types\[\w+\.Fun\]\.IsType\(\)`).MatchString(body):
 				callRule = "isType" // accepted iff the callee expression denotes a type
-			case strings.Contains(body, "info.TypeOf(expr.Fun).(*types.Signature); isFunc"):
+			case strings.Contains(body, ".(*types.Signature); isFunc"):
 				callRule = "signature" // rejected iff the callee's type is literally a signature
 			default:
 				fail("processValue: unrecognised test in the CallExpr case: %s", body)
 			}
 		default:
-			if strings.Contains(body, "ok = false") {
+			if rejects(body) {
 				fail("processValue: unexpected rejecting case %v", caseTypes(cc))
 			}
 			good = append(good, caseTypes(cc)...)
